@@ -159,6 +159,10 @@ def run(ctx):
     rnd = random.Random(ctx.seed)
     models = evolve.corpus(doc) + evolve.seeded(doc, rnd, 24 if ctx.thorough() else 2)
     machinery = []
+    for tag, desc, d in models:
+        bad = evolve.discipline_problems(d)
+        if bad:  # the edit generator's mistake, never the repository's
+            raise Broken(f"evolved model {tag} is outside the input discipline: {bad[:3]}")
 
     def job(i):
         tag, desc, d = models[i]
